@@ -36,6 +36,9 @@ def analyse(args):
     os.remove(path)
     y = y32.astype(np.float64)
     y = y[np.isfinite(y)]
+    if len(y) == 0:
+        # every one of the 2^24 outputs is NaN / infinite (reported through the support counters): distance 1
+        return 1.0, float('nan'), 0, 0.0, len(y32)
     law = R.get(fam, pv)
     d, at, ndist = kolmogorov_exact(y, law)
     u = np.unique(y)
